@@ -2371,6 +2371,11 @@ func (r *pfRun) checkCall(ci ssa.CallInstruction, st *pfState) {
 			}
 		}
 		e.site(r.fn, ci, "libpre", "regexp.MustCompile", false, "pattern is not a valid constant", r.ctx)
+	case an.PkgBer + ".(*Packet).AppendChild":
+		// AppendChild reads the child's bytes: a nil child is a nil dereference inside the library
+		if len(cc.Args) == 2 {
+			check(cc.Args[1], "child handed to ber.AppendChild (which dereferences it)")
+		}
 	case "strings.Repeat":
 		l := r.evalInt(cc.Args[1], st)
 		if !r.linNonNeg(st, l) {
@@ -2455,6 +2460,15 @@ func (r *pfRun) nullableByDesign(v ssa.Value) bool {
 					// (a result that is nil only together with an error is followed within the function that made the
 					// call, where the error test is visible; not into closures)
 					return true
+				}
+			} else if f != nil && an.FuncPkgPath(f) == an.PkgBer && call.Parent() == r.fn {
+				// a packet the ber library returns together with an error is nil when the error is not (its decoders
+				// return (nil, err)); the err == nil edge establishes that it is not
+				rs := f.Signature.Results()
+				if n := rs.Len(); n >= 2 && x.Index < n-1 && types.Identical(rs.At(n-1).Type(), types.Universe.Lookup("error").Type()) {
+					if _, isPtr := rs.At(x.Index).Type().Underlying().(*types.Pointer); isPtr {
+						return true
+					}
 				}
 			}
 		}
